@@ -17,7 +17,9 @@ Definition ostr_eqb : option str -> option str -> bool := option_eqb str_eqb.
 Record sched_case := {
   sc_files : list str; sc_fs0 : list (str * str);
   sc_oracle : list ((str * str) * (option str * (bool * bool)));
-  sc_trace : list ev; sc_fs1 : list (str * str); sc_changed : list str; sc_failed : list str }.
+  sc_trace : list ev; sc_fs1 : list (str * str); sc_changed : list str; sc_failed : list str;
+  (* per task: the content of its file as the wrapper saw it when _process_file started / returned, in THIS run *)
+  sc_reads : list (nat * option str); sc_afters : list (nat * option str) }.
 
 Definition key_eqb : str * str -> str * str -> bool := pair_eqb str_eqb str_eqb.
 Definition T_of (tbl : list ((str * str) * (option str * (bool * bool)))) : transformer :=
@@ -45,10 +47,31 @@ Definition sched_trace_ok (c : sched_case) : bool :=
 (** MODEL = IMPLEMENTATION: running the model on the observed schedule gives the observed file system and report order *)
 Definition sched_model_ok (c : sched_case) : bool :=
   let n := length (sc_files c) in
-  let st := exec (sc_files c) (T_of (sc_oracle c)) no_findings (sc_fs0 c) (sc_trace c) in
+  let st := exec sched_task_local (sc_files c) (T_of (sc_oracle c)) no_findings (sc_fs0 c) (sc_trace c) in
   let m := merged sched_collect n (sc_trace c) st in
   forallb (fun p => ostr_eqb (lookup (st_fs st) p) (lookup (sc_fs1 c) p)) (sched_paths c)
   && strs_eqb (r_changesets m) (sc_changed c) && strs_eqb (r_failures m) (sc_failed c).
+
+(** MODEL = IMPLEMENTATION at the observed points of the schedule (this is where the trace matters): when task i starts,
+    its file holds what the model's file system holds at that point of the trace; when it returns, likewise.  A task that
+    wrote to another task's file, even transiently, or a file rewritten before its own task read it, shows here. *)
+Definition sched_points_ok (c : sched_case) : bool :=
+  let sts := exec_states sched_task_local (sc_files c) (T_of (sc_oracle c)) no_findings (init (sc_fs0 c)) (sc_trace c) in
+  forallb (fun es : ev * state =>
+             let '(e, st) := es in
+             match e with
+             | Read i =>
+                 match dget Nat.eqb (rd_slot sched_task_local i) (st_rd st), dget Nat.eqb i (sc_reads c) with
+                 | Some m, Some o => ostr_eqb m o
+                 | _, _ => false
+                 end
+             | Write i =>
+                 match nth_error (sc_files c) i, dget Nat.eqb i (sc_afters c) with
+                 | Some p, Some o => ostr_eqb (lookup (st_fs st) p) o
+                 | _, _ => false
+                 end
+             | Compute _ => true
+             end) sts.
 
 (** IMPLEMENTATION = SPEC: the observation is what the schedule-free specification says *)
 Definition sched_spec_ok (c : sched_case) : bool :=
@@ -58,17 +81,19 @@ Definition sched_spec_ok (c : sched_case) : bool :=
   && strs_eqb (r_changesets m) (sc_changed c) && strs_eqb (r_failures m) (sc_failed c).
 
 (* ---------------------------------------------------------------------------------------------- *)
-(** The pool of one codemod: --max-workers, cpu count, the bound the executor object reports, start/finish trace *)
+(** The pool of one codemod: --max-workers, cpu count, the bound the executor object reports, and the observed events
+    (Submit in input order; Spawn when a thread id is seen for the first time; Take/Done with the thread's index) *)
 Definition pool_case := (N * N * N * list pev)%type.
 Definition pool_model_ok (c : pool_case) : bool :=
   let '(w, cpu, bound, tr) := c in
-  N.eqb (pool_bound pool_size_arg w cpu) bound && admissible (pool_bound pool_size_arg w cpu) [] [] tr.
+  N.eqb (pool_bound pool_size_arg w cpu) bound &&
+  match pool_run (pool_bound pool_size_arg w cpu) pool_init tr with Some _ => true | None => false end.
 Definition pool_spec_ok (c : pool_case) : bool :=
-  let '(w, cpu, bound, tr) := c in (N.of_nat (max_inflight tr) <=? w)%N.
+  let '(w, cpu, bound, tr) := c in (N.of_nat (peak tr) <=? w)%N.
 
 (* ---------------------------------------------------------------------------------------------- *)
 (** Registry: entry-point sequence with the loaded collections, the default exclusions, sast_only, the observed
-    sequence of `running codemod` ids *)
+    execution order.  MODEL check only: the exact order is what the code as written produces. *)
 Definition reg_case := (list entry_point * list str * bool * list str)%type.
 
 Fixpoint inserts {A} (x : A) (l : list A) : list (list A) :=
@@ -82,22 +107,26 @@ Fixpoint perms {A} (l : list A) : list (list A) :=
 Definition reg_model_ok (c : reg_case) : bool :=
   let '(eps, excl, sast, obs) := c in
   match entry_point_iteration with
-  | Deterministic => strs_eqb (run_order Deterministic (fun n => n) eps excl sast) obs
+  | Deterministic => strs_eqb (run_order Deterministic (fun n => n) 8 eps excl sast) obs
   | OverSet =>
       (* the seeded hash is not observable: some order of the collections must explain the observation *)
-      existsb (fun p => strs_eqb (match_default excl sast (flat_map snd p)) obs) (perms (dedup_eps [] eps))
+      existsb (fun p => strs_eqb (match_default excl sast (flat_map snd p)) obs) (perms (dedup_eps eps))
   end.
-Definition reg_spec_ok (c : reg_case) : bool :=
-  let '(eps, excl, sast, obs) := c in strs_eqb (spec_run_order eps excl sast) obs.
 
 (* ---------------------------------------------------------------------------------------------- *)
-(** Path order: the matched paths in enumeration order, the observed task order *)
+(** Path order: the matched paths in enumeration order, the observed task order.  MODEL check only. *)
 Definition order_case := (list str * list str)%type.
 Definition order_model_ok (c : order_case) : bool :=
   let '(enum, obs) := c in
   match sched_paths_order with
-  | SortedPaths => strs_eqb (match_order SortedPaths (fun _ => 0%N) enum) obs
+  | SortedPaths => strs_eqb (match_order SortedPaths (fun _ => 0%N) 1 enum) obs
   | SetOrder => strs_eqb (sort_paths enum) (sort_paths obs)   (* the seeded hash is not observable: some order of the same set *)
   end.
-Definition order_spec_ok (c : order_case) : bool :=
-  let '(enum, obs) := c in strs_eqb (sort_paths enum) obs.
+
+(* ---------------------------------------------------------------------------------------------- *)
+(** SPEC for orders (task order, execution order, report order): the property asks for CONSTANCY over hash seeds,
+    creation orders and schedules, not for one particular order.  A case is the list of the orders observed in the
+    runs of one project that differ only in those dimensions. *)
+Definition const_case := list (list str).
+Definition const_spec_ok (c : const_case) : bool :=
+  match c with [] => true | x :: r => forallb (strs_eqb x) r end.
